@@ -8,7 +8,7 @@ from vx.core import Scenario
 META = dict(
     explanation="Oracle: exact integral of the polynomial density, sum_k c_k (b^(k+1) - a^(k+1))/(k+1); exactness degree of each rule is pinned from both sides (degree d proved, degree d+1 refuted by a sensitivity twin).",
     bounds=dict(quick="2 bins, polynomial degree <= 4", thorough="3 bins, polynomial degree <= 4"),
-    outside=["bin_evaluation='numerical' (scipy.integrate.quad is FFI)", "convergence orders for non-polynomial densities", "transcendental densities (normal, exponential)"],
+    outside=["bin_evaluation='numerical' beyond the concrete sub-check 'numerical/*' (scipy.integrate.quad is FFI: four fixed densities are integrated concretely and compared with the exact integral)", "convergence orders for non-polynomial densities", "transcendental densities (normal, exponential)"],
     assumptions=["bin edges strictly ascending"],
     exhaustive=dict(quick=True, thorough=True),
 )
@@ -149,6 +149,49 @@ def sc_fit_model(cx, density, method, filled):
         cx.eq("fitmodel-%s-density%s:bin%d" % (method, density, i), mod[i], want)
 
 
+def sc_numerical(cx, case):
+    """concrete sub-check (floating point, not a solver verdict): bin_evaluation='numerical' agrees with the exact
+    integral to integration accuracy, also for densities that are not smooth on the bin scale"""
+    import math
+
+    import numpy as rnp
+
+    from kafe2.fit.histogram.model import HistParametricModel
+
+    def A(x):
+        return rnp.asarray(x, dtype=float)
+
+    if case in ("narrow-normal", "wide-bin-normal"):
+        def dens(x, mu, sig):
+            return rnp.exp(-0.5 * ((A(x) - mu) / sig) ** 2) / (sig * math.sqrt(2 * math.pi))
+
+        def F(x, mu, sig):
+            return 0.5 * (1 + math.erf((x - mu) / (sig * math.sqrt(2))))
+
+        pars, edges = ([0.5, 0.02], [0.0, 1.0, 2.0]) if case == "narrow-normal" else ([1.0, 1.0], [-10.0, 12.0, 13.0])
+    elif case == "laplace-kink":
+        def dens(x, mu, b):
+            return rnp.exp(-rnp.abs(A(x) - mu) / b) / (2 * b)
+
+        def F(x, mu, b):
+            return 0.5 * math.exp((x - mu) / b) if x < mu else 1 - 0.5 * math.exp(-(x - mu) / b)
+
+        pars, edges = [0.3, 0.5], [0.0, 1.0, 2.5]
+    else:
+        def dens(x, a, b):
+            return a + b * A(x) ** 3
+
+        def F(x, a, b):
+            return a * x + b * x**4 / 4
+
+        pars, edges = [0.7, 0.2], [0.0, 0.5, 2.0]
+    m = HistParametricModel(len(edges) - 1, (edges[0], edges[-1]), dens, pars, bin_edges=edges, bin_evaluation="numerical")
+    d = m.data
+    for i in range(len(edges) - 1):
+        want = F(edges[i + 1], *pars) - F(edges[i], *pars)
+        cx.concrete("numerical:%s:bin%d" % (case, i), abs(float(d[i]) - want) <= 1e-6 * max(1.0, abs(want)), info="numerical %r vs exact %r" % (float(d[i]), want))
+
+
 def scenarios(tier, seed):
     S = []
     nb = 2 if tier == "quick" else 3
@@ -164,6 +207,8 @@ def scenarios(tier, seed):
     for method in ("rectangle", "trapezoid", "simpson"):
         for rf in (False, True):
             S.append(Scenario("rebin/%s/read-first-%s" % (method, rf), sc_rebin, params=dict(method=method, read_first=rf)))
+    for case in ("narrow-normal", "wide-bin-normal", "laplace-kink", "cubic"):
+        S.append(Scenario("numerical/%s" % case, sc_numerical, family="numerical", params=dict(case=case)))
     for density in (True, False):
         for method in ("simpson", "antiderivative", "trapezoid"):
             for filled in (False, True):
